@@ -39,7 +39,7 @@ def gen_one(rng):
         sid = 11 + i
         retry = None if rng.random() < 0.5 else rng.randrange(0, 3)
         steps = [dict(id=sid * 10 + j + 1, pre=rng.choice([0, 1, 2, 3]), yields=rng.choice([0, 0, 1, 3, 9, 14]), post=rng.choice([0, 1, 2]),
-                      inner=rng.random() < 0.25, under=rng.random() < 0.2, leak=rng.random() < 0.2, off_thread=rng.random() < 0.15)
+                      inner=rng.random() < 0.25, under=rng.random() < 0.2, leak=rng.random() < 0.2, off_thread=rng.random() < 0.15, nested=rng.random() < 0.12)
                  for j in range(rng.randrange(1, 4))]
         scs.append(dict(id=sid, retry=retry, fails=min(rng.choice([0, 0, 1, 2]), (retry or 0) + 1), steps=steps))
     if rng.random() < 0.3:          # a chatty step: a burst of messages between two await points
@@ -97,7 +97,7 @@ def panic_result(case):
 
 
 def nmsgs(case):
-    return sum(1 for sc in case["scenarios"] for st in sc["steps"] if st.get("off_thread")) + sum(sum(h[0] + h[2] for h in (case.get("hooks") or {}).values() if isinstance(h, list)) * len(case["scenarios"]) for _ in [0]) + sum(st["pre"] + st["post"] for sc in case["scenarios"] for st in sc["steps"])
+    return sum(1 for sc in case["scenarios"] for st in sc["steps"] if st.get("off_thread")) + sum(1 for sc in case["scenarios"] for st in sc["steps"] if st.get("nested")) + sum(sum(h[0] + h[2] for h in (case.get("hooks") or {}).values() if isinstance(h, list)) * len(case["scenarios"]) for _ in [0]) + sum(st["pre"] + st["post"] for sc in case["scenarios"] for st in sc["steps"])
 
 
 def nontrivial(case, res):
@@ -110,5 +110,5 @@ def describe(case, res):
             "retry=%s" % any(sc["retry"] for sc in case["scenarios"]), "outer_span=%s" % bool(case.get("outer")),
             "inner_span=%s" % any(st.get("inner") for sc in case["scenarios"] for st in sc["steps"]),
             "dunder=%s" % any(st.get("under") for sc in case["scenarios"] for st in sc["steps"]),
-            "off_thread=%s" % any(st.get("off_thread") for sc in case["scenarios"] for st in sc["steps"]), "leak=%s" % any(st.get("leak") for sc in case["scenarios"] for st in sc["steps"]), "filter=%s" % case.get("filter", "info"), "hooks=%s" % ("none" if not case.get("hooks") else "+".join(k for k in ("before", "after", "stagger") if case["hooks"].get(k))), "which_after=%s" % bool(case.get("which_after")),
+            "off_thread=%s" % any(st.get("off_thread") for sc in case["scenarios"] for st in sc["steps"]), "nested_run=%s" % any(st.get("nested") for sc in case["scenarios"] for st in sc["steps"]), "leak=%s" % any(st.get("leak") for sc in case["scenarios"] for st in sc["steps"]), "filter=%s" % case.get("filter", "info"), "hooks=%s" % ("none" if not case.get("hooks") else "+".join(k for k in ("before", "after", "stagger") if case["hooks"].get(k))), "which_after=%s" % bool(case.get("which_after")),
             "burst=%s" % any(st["pre"] > 8 or st["post"] > 8 for sc in case["scenarios"] for st in sc["steps"])]
